@@ -1441,6 +1441,11 @@ class Interp:
         key = self.eval_index(e.slice, f)
         r = self.models.getitem(self, obj, key)
         if r is NotImplemented:
+            if self._opaque_operands(obj):
+                from .sym import Elem
+                r = SOpaque(self.ctx.const("opaque_item", Elem))
+                SIGS[id(r)] = (r, ("getitem", sig_of(obj), sig_of(key)))
+                return r
             raise Unsupported(f"subscript of {type(obj).__name__} with {type(key).__name__} (line {e.lineno})")
         return r
 
@@ -1559,21 +1564,37 @@ class Interp:
         if isinstance(fn, SObj):
             m = self.getattr(fn, "__call__", f, node)
             return self.call(m, args, kwargs, f, node)
+        np_opaque = False
         if getattr(f.unit, "opaque_arith", False):
-            # effects-only units: numeric content is abstracted -- any numpy function
-            # applied to symbolic data yields an opaque value
+            # effects-only units: numeric content is abstracted -- a numpy function
+            # applied to opaque data (or one the models cannot handle) yields an opaque value
             fmod = getattr(fn, "__module__", None) or ""
             import numpy as _np
-            if (fmod.startswith("numpy") or isinstance(fn, _np.ufunc)) \
-                    and (any(_has_sym(a) for a in args) or any(_has_sym(v) for v in kwargs.values())):
-                from .sym import Elem
-                r = SOpaque(self.ctx.const(f"np_{getattr(fn, '__name__', 'f')}", Elem))
-                SIGS[id(r)] = (r, (f"numpy.{getattr(fn, '__name__', 'f')}", tuple(sig_of(a) for a in args),
-                                   tuple(sorted((k, sig_of(v)) for k, v in kwargs.items()))))
-                return r
+            np_opaque = (fmod.startswith("numpy") or isinstance(fn, _np.ufunc)) \
+                and (any(_has_sym(a) for a in args) or any(_has_sym(v) for v in kwargs.values()))
+
+        def _opaque_np():
+            from .sym import Elem
+            r = SOpaque(self.ctx.const(f"np_{getattr(fn, '__name__', 'f')}", Elem))
+            SIGS[id(r)] = (r, (f"numpy.{getattr(fn, '__name__', 'f')}", tuple(sig_of(a) for a in args),
+                               tuple(sorted((k, sig_of(v)) for k, v in kwargs.items()))))
+            return r
+        has_untyped = any(isinstance(a, SOpaque) and getattr(a, "pytype", None) is None
+                          for a in list(args) + list(kwargs.values()))
         # model registered for this very callable?
         model = self.models.lookup(fn)
+        mode = getattr(f.unit, "opaque_arith", False)
+        if np_opaque and mode is True:
+            return _opaque_np()          # every numpy function on symbolic data is opaque
+        if np_opaque and (model is None or has_untyped) \
+                and not any(isinstance(a, SObj) for a in list(args) + list(kwargs.values())):
+            return _opaque_np()          # mode "fallback": opaque only where the models do not apply
         if model is not None:
+            if np_opaque:
+                try:
+                    return model(self, *args, **kwargs)
+                except Unsupported:
+                    return _opaque_np()
             return model(self, *args, **kwargs)
         if isinstance(fn, type) and issubclass(fn, BaseException):
             return PyRaiseValue(fn, args)
